@@ -32,6 +32,7 @@ Section Refresh.
     match o with
     | OOpenErr => True
     | OBody d re => snd (parse crc d re) <> None
+    | ORenameFail d => snd (parse crc d false) <> None
     end.
 
   Definition failed_upd (l : flist) : upd :=
@@ -39,8 +40,9 @@ Section Refresh.
 
   Lemma update_one_failed l o fs : fails o -> update_one l o fs = (failed_upd l, fs).
   Proof.
-    unfold Refresh.update_one, fails. destruct o as [|d re]; auto.
-    destruct (parse crc d re) as [st [e|]]; cbn; [reflexivity|congruence].
+    unfold Refresh.update_one, fails. destruct o as [|d re|d]; auto.
+    - destruct (parse crc d re) as [st [e|]]; cbn; [reflexivity|congruence].
+    - destruct (parse crc d false) as [st [e|]]; cbn; [reflexivity|congruence].
   Qed.
 
   (** A body cut by a read error fails wherever it is cut. *)
@@ -61,23 +63,29 @@ Section Refresh.
   Lemma update_one_cases l o fs :
     let '(u, fs') := update_one l o fs in
     (u_updated u = false /\ fs' = fs) \/
+    (exists d, o = ORenameFail d /\ fs' = fs /\ u_updated u = true /\ u_err u = true /\
+               u_count u = 0 /\ u_sum u = f_sum l) \/
     (exists d re st, o = OBody d re /\ parse crc d re = (st, None) /\ p_sum st <> f_sum l /\
        u_updated u = true /\ u_err u = false /\ u_count u = p_count st /\ u_sum u = p_sum st /\
        fs' = fset (f_id l) (output st) fs /\
        exists st', parse crc (output st) false = (st', None) /\ output st' = output st /\
                    p_count st' = p_count st /\ p_sum st' = p_sum st).
   Proof.
-    unfold Refresh.update_one. destruct o as [|d re]; [now left|].
-    destruct (parse crc d re) as [st [e|]] eqn:P; [now left|].
-    destruct (N.eqb_spec (p_sum st) (f_sum l)); [now left|].
-    right. exists d, re, st. repeat split; auto.
-    destruct (parse_fixed_point crc _ _ _ P) as (st' & A & B & C & D & _). eauto.
+    unfold Refresh.update_one. destruct o as [|d re|d]; [now left| |].
+    - destruct (parse crc d re) as [st [e|]] eqn:P; [now left|].
+      destruct (N.eqb_spec (p_sum st) (f_sum l)); [now left|].
+      right; right. exists d, re, st. repeat split; auto.
+      destruct (parse_fixed_point crc _ _ _ P) as (st' & A & B & C & D & _). eauto.
+    - destruct (parse crc d false) as [st [e|]] eqn:P; [now left|].
+      destruct (N.eqb_spec (p_sum st) (f_sum l)); [now left|].
+      right; left. exists d. repeat split; auto.
   Qed.
 
   Lemma update_one_id l o fs : u_id (fst (update_one l o fs)) = f_id l.
   Proof.
-    unfold Refresh.update_one. destruct o as [|d re]; auto.
-    destruct (parse crc d re) as [st [e|]]; auto. destruct (p_sum st =? f_sum l); auto.
+    unfold Refresh.update_one. destruct o as [|d re|d]; auto.
+    - destruct (parse crc d re) as [st [e|]]; auto. destruct (p_sum st =? f_sum l); auto.
+    - destruct (parse crc d false) as [st [e|]]; auto. destruct (p_sum st =? f_sum l); auto.
   Qed.
 
   Lemma update_one_fget l o fs i :
@@ -89,7 +97,7 @@ Section Refresh.
     - rewrite (update_one_failed l o fs (H E)). auto.
     - split; [|rewrite update_one_id; congruence].
       pose proof (update_one_cases l o fs) as C. destruct (update_one l o fs) as [u fs'].
-      cbn [snd]. destruct C as [[_ ->]|(d & re & st & _ & _ & _ & _ & _ & _ & _ & -> & _)]; auto.
+      cbn [snd]. destruct C as [[_ ->]|[(d & _ & -> & _)|(d & re & st & _ & _ & _ & _ & _ & _ & _ & -> & _)]]; auto.
       now apply fget_fset_ne.
   Qed.
 
@@ -308,4 +316,30 @@ Example refresh_example :
   fails crc32_update (OBody (firstn 3 RExamples.good) true) /\
   refresh crc32_update true true true RExamples.all
     (fun i => if i =? 1 then OBody RExamples.html false else OOpenErr) RExamples.st1 = RExamples.st1.
+Proof. vm_compute. repeat split; congruence. Qed.
+
+(** A failing rename of the pending file ([CloseReplace]) is not one of the
+    failures the property lists, and the code does not treat it as one: the
+    file stays, but the update is still reported ([ok] remains true in
+    [updateIntl]), so when another list of the same array succeeds the entry
+    gets the rule count of the never-filled working copy, 0. *)
+Module RenameFail.
+  Import RExamples.
+  Definition st_a : rstate :=
+    {| r_block := [{| f_id := 1; f_enabled := true; f_count := 0; f_sum := 0 |};
+                   {| f_id := 2; f_enabled := true; f_count := 0; f_sum := 0 |}];
+       r_allow := []; r_files := []; r_engine := {| e_block := []; e_allow := [] |} |}.
+  Definition good2 : bytes := [124;124;112;50;94;10].    (* ||p2^ *)
+  Definition st_b := refresh crc32_update true true true all (fun _ => OBody good false) st_a.
+  Definition st_c := refresh crc32_update true true true all
+                       (fun i => if i =? 1 then ORenameFail good2 else OBody good2 false) st_b.
+End RenameFail.
+
+Example rename_failure_resets_count :
+  fget 1 (r_files RenameFail.st_b) = Some RExamples.good /\
+  map f_count (r_block RenameFail.st_b) = [1; 1] /\
+  fget 1 (r_files RenameFail.st_c) = fget 1 (r_files RenameFail.st_b) /\
+  map f_count (r_block RenameFail.st_c) = [0; 1] /\
+  map f_sum (r_block RenameFail.st_c) <> map f_sum (r_block RenameFail.st_b) /\
+  nth 0 (map f_sum (r_block RenameFail.st_c)) 0 = nth 0 (map f_sum (r_block RenameFail.st_b)) 0.
 Proof. vm_compute. repeat split; congruence. Qed.
